@@ -434,6 +434,25 @@ pub fn run_c09(tier: &str) -> Outcome {
     o
 }
 
+/// C19: HX lock-step + the same comparison on every small digraph (GRAPHGEN).
+pub fn run_c19(tier: &str) -> Outcome {
+    let t0 = Instant::now();
+    let mut o = run_hx_prop("C19", tier);
+    let (acc, rule) = crate::gen::graphgen::run("C19", tier);
+    if let serde_json::Value::Object(m) = &mut o.coverage {
+        m.insert("graphgen".into(), json!({"rule": rule, "evaluations": acc.evaluations, "graphs": acc.nontrivial, "samples": acc.samples, "failing_cases": acc.fail_total}));
+        let t = m["traces_validated_against_impl"].as_u64().unwrap_or(0) + acc.evaluations;
+        m.insert("traces_validated_against_impl".into(), json!(t));
+    }
+    if acc.nontrivial == 0 && acc.fail_total == 0 {
+        o.machinery.push("GRAPHGEN built no graph".to_string());
+    }
+    o.failure_total += acc.fail_total;
+    o.failures.extend(acc.failures);
+    o.wall_s = t0.elapsed().as_secs_f64();
+    o
+}
+
 pub fn run(prop: &str, tier: &str) -> Option<Outcome> {
     match prop {
         "C02" => return Some(run_hx_plus_family("C02", tier)),
@@ -441,6 +460,7 @@ pub fn run(prop: &str, tier: &str) -> Option<Outcome> {
         "C06" => return Some(run_hx_plus_family("C06", tier)),
         "C07" => return Some(crate::c07::run_c07(tier)),
         "C09" => return Some(run_c09(tier)),
+        "C19" => return Some(run_c19(tier)),
         "C11" => return Some(crate::gen::treegen::run_c11(tier)),
         "C12" => return Some(crate::gen::treegen::run_c12(tier)),
         "C13" => return Some(run_hx_plus_graphs("C13", tier)),
